@@ -309,6 +309,89 @@ def make_archive_faults():
     return mk
 
 
+# ------------------------------------------------------------------ native part: real containers (C level parsers)
+def native_containers():
+    """real files through csv / codecs / zipfile / xlrd in the three modes: healthy, with rejected rows, and broken at
+    line 1, 2, 3 (unterminated quote, undecodable byte, short fixed record, truncated archive).  Exploration of
+    concrete cases (labelled native in the evidence), not a solver query: the parsers are C code."""
+    import os
+    import shutil
+    import tempfile
+    from cutplace import interface, errors
+
+    failures = []
+    samples = []
+    n = 0
+    tmp = tempfile.mkdtemp(prefix="c06native")
+
+    def fail(key, what, **args):
+        failures.append(dict(key=key, what=what, args=args))
+
+    def cid_of(text):
+        return interface.create_cid_from_string(text)
+
+    keys = ("ch", "t01")
+    delim = rf.cid_text(keys, "delimited", extra=("d,encoding,utf-8", "d,header,0"))
+    delim_h1 = rf.cid_text(keys, "delimited", extra=("d,encoding,utf-8", "d,header,1"))
+    fixed = "d,format,fixed\nd,encoding,utf-8\nd,line delimiter,lf\nf,k,,,1,Choice,\"a,b\"\nf,v,,X,2\n"
+    ods = rf.cid_text(keys, "ods")
+    xls = rf.cid_text(keys, "excel")
+    good = [b"a,x", b"c,x", b"b,", b"a,xx", b"b,y"]  # rows 2 and 4 rejected
+    cases = []  # (name, cid text, bytes, suffix, broken?, data rows or None)
+    cases.append(("delimited healthy", delim, b"\n".join(good) + b"\n", ".csv", False, 5))
+    cases.append(("delimited healthy header 1", delim_h1, b"\n".join(good) + b"\n", ".csv", False, 4))
+    cases.append(("delimited empty", delim, b"", ".csv", False, 0))
+    for at in range(0, 4):
+        lines = list(good[:at]) + [b'a,"x'] + list(good[at:at + 1])
+        cases.append(("delimited unterminated quote in line %d" % (at + 1), delim, b"\n".join(lines) + b"\n", ".csv", True, None))
+        cases.append(("delimited unterminated quote in line %d (header 1)" % (at + 1), delim_h1, b"\n".join(lines) + b"\n", ".csv", True, None))
+        lines = list(good[:at]) + [b"a,\xff"] + list(good[at:at + 1])
+        cases.append(("delimited undecodable byte in line %d" % (at + 1), delim, b"\n".join(lines) + b"\n", ".csv", True, None))
+    cases.append(("delimited unterminated quote, single line without newline", delim, b'a,"x', ".csv", True, None))
+    cases.append(("delimited undecodable byte far into the data", delim, b"a,x\n" * 5000 + b"a,\xff\n", ".csv", True, None))
+    cases.append(("fixed healthy", fixed, b"ax \ncx \nb  \n", ".txt", False, 3))
+    for at in range(0, 3):
+        recs = [b"ax ", b"cx ", b"b  "][:at] + [b"a"]
+        cases.append(("fixed short record %d" % (at + 1), fixed, b"\n".join(recs), ".txt", True, None))
+        recs = [b"ax ", b"cx ", b"b  "][:at] + [b"a\xffx"]
+        cases.append(("fixed undecodable byte in record %d" % (at + 1), fixed, b"\n".join(recs) + b"\n", ".txt", True, None))
+    cases.append(("ods that is plain text", ods, b"a,x\n", ".ods", True, None))
+    cases.append(("ods that is a truncated archive", ods, b"PK\x03\x04" + b"\x00" * 40, ".ods", True, None))
+    cases.append(("excel that is plain text", xls, b"a,x\n", ".xls", True, None))
+    cases.append(("xlsx that is a truncated archive", xls, b"PK\x03\x04" + b"\x00" * 40, ".xlsx", True, None))
+    try:
+        for idx, (name, text, payload, suffix, broken, total) in enumerate(cases):
+            n += 1
+            path = os.path.join(tmp, "case%d%s" % (idx, suffix))
+            with open(path, "wb") as f:
+                f.write(payload)
+            results = {}
+            internal = None
+            for mode in MODES:
+                try:
+                    results[mode] = read_mode(cid_of(text), path, mode)
+                except Exception as e:  # noqa
+                    internal = "%s mode raised %s: %s" % (mode, type(e).__name__, e)
+                    break
+            if internal is not None:
+                fail("modes-real-container", "%s: %s" % (name, internal), case=name)
+                continue
+            ok, why = relation(results, total)
+            if not ok:
+                fail("modes-real-container", "%s: %s" % (name, why), case=name)
+                continue
+            yr = results["yield"][1]
+            if broken and (yr is None or yr[0] != "DataFormatError"):
+                fail("modes-real-container", "%s: reading ended with %r instead of a DataFormatError" % (name, yr), case=name)
+            elif not broken and yr is not None:
+                fail("modes-real-container", "%s: reading ended with %r" % (name, yr), case=name)
+            elif len(samples) < 3:
+                samples.append("%s: yield %r" % (name, results["yield"][1:]))
+    finally:
+        shutil.rmtree(tmp, ignore_errors=True)
+    return dict(count=n, failures=failures, samples=samples)
+
+
 def build(tier, seed):
     queries = []
     shapes = [(("ch", "t01"), 2, True), (("t12",), 3, False), (("ch", "t01"), 1, True), (("t12", "t01"), 2, False)]
@@ -346,9 +429,10 @@ def build(tier, seed):
                          "ODS container: opening the archive / reading content.xml / parsing fails with any documented "
                          "exception type, in each of the three modes", budget_s=300, expect=("stage0", "stage1", "stage2"),
                          functions=FUNCS, stubs=("S-ZIP with faults", "S-XML with faults", "S-FMT")))
-    return dict(queries=queries, warm=("strip",),
+    return dict(queries=queries, warm=("strip",), native=native_containers,
                 assumptions=["container faults are modelled as a DataFormatError raised by the row source after k rows"],
-                outside_claim=["undecodable bytes, unterminated csv quotes, broken archives (C codecs, _csv, zlib)",
+                outside_claim=["undecodable bytes, unterminated csv quotes, broken archives (C codecs, _csv, zlib) beyond the "
+                               "concrete native cases",
                                "tables above the bounds"],
                 exhaustive=False)
 
